@@ -100,6 +100,27 @@ CHECKS = {
    note=NOTE_COMMON+" InterpolatedUnivariateSpline (interpolating: passes through its data), PchipInterpolator and empymod's transform are contract stubs whose INPUTS are checked; monotonic decay of the extrapolated imaginary part and numerical equality with the transform are outside.",
    technique="symbolic execution with forking comparisons of symbolic frequencies (path = ordering class) + LIA/LRA validity queries; environment stubs for spline/PCHIP/transform",
    ref="DESIGN.md §6 C20"),
+ 'C07': dict(
+   text="A real (shadow) Simulation object is driven through compute, misfit and gradient with symbolic observed data, symbolic "
+        "model (all anisotropy cases, several mappings) and emg3d.solve replaced by ONE uninterpreted function (PEC contract), "
+        "so the forward field E and back-propagated field lambda are arbitrary symbolic complex fields. z3 decides the two "
+        "code-level identities the adjoint-state theorem needs: (i) the adjoint source built by _bcompute/_get_rfield is "
+        "c0*sum_r conj(w_r r_r)*(unit point vector of receiver r) in survey order, with source-relative receivers, magnetic "
+        "receivers and a NaN datum skipped; (ii) every entry of the returned gradient equals -Re[(1/c0) lambda^T (dA/dp) E] "
+        "with dA/dsigma of the C02 operator, the anisotropy collection and the mapping's chain rule (symbolic differentiator).",
+   note=NOTE_COMMON+" The adjoint-state theorem itself, exact solves, operator symmetry (C02), P = V^T (C09) and the misfit formula (C13) are assumed/stated; frequency domain, gridding='same', linear receivers, 4x4x3 grid.",
+   technique="symbolic execution of the real Simulation call chain with an uninterpreted solver function + SMT validity of polynomial identities entry by entry; FD replay on the real package",
+   ref="DESIGN.md §6 C07"),
+ 'C08': dict(
+   text="jvec and jtvec are executed on a real (shadow) Simulation with symbolic model, data and vectors (uninterpreted solver): "
+        "z3 decides (a) the source field jvec hands to the solver equals -(dA/dp . v) E on every edge (dA/dsigma of the C02 "
+        "operator, chain rule, HTI/VTI/triaxial stacking) and J v is the receiver sampling of that solve stored per "
+        "source/receiver/frequency; (b) jtvec(w) satisfies C07's adjoint-source and gradient-assembly identities with w in "
+        "place of the weighted residual (so J^T = G^T A^-T P^T is the exact adjoint of J = P A^-1 G given A = A^T and P = V^T); "
+        "(c) jtvec(residual*weights) equals the gradient entry by entry.",
+   note=NOTE_COMMON+" Adjointness is derived from (a)+(b)+C02 symmetry+C09 transposes (mathematics); for gridding != 'same' the extra factor is the volume-averaging pair of C15; discretize's edge inner-product derivative is used as diag(u)@A (checked numerically per call).",
+   technique="symbolic execution of jvec/jtvec on a real Simulation with an uninterpreted solver + SMT validity of polynomial identities; adjoint/FD replay on the real package",
+   ref="DESIGN.md §6 C08"),
  'C05': dict(
    text="Bounded symbolic execution with the grid shape as z3 integers: MGParameters._max_level, _current_sc_dir, _current_lr_dir, "
         "smoothing dispatch, multigrid recursion and _terminate run with numerics stubbed; the explorer forks on the code's "
